@@ -3,7 +3,7 @@
 /verif/benign: any exit code other than 0 is a false alarm (1) or a rule that
 could not read the refactored code (2).
 
-usage: tools/keep_eval.py [name ...]
+usage: [KEEP_PROPS=C07,C18] tools/keep_eval.py [name ...]
 """
 import contextlib
 import io
@@ -32,7 +32,8 @@ def run_one(name):
         if r.returncode != 0:
             return name, meta['property'], 'PATCH-FAILED', {}
         out = {}
-        for p in CLAIMED:
+        only = os.environ.get('KEEP_PROPS')
+        for p in (only.split(',') if only else CLAIMED):
             buf = io.StringIO()
             with contextlib.redirect_stdout(buf), \
                     contextlib.redirect_stderr(io.StringIO()):
